@@ -596,6 +596,8 @@ HELPERS = ['to_matrix(None)', 'to_matrix(Angle)', 'to_matrix(FrozenAngle)', 'to_
            'Matrix.from_angstr(str)', 'Matrix.copy()', 'FrozenMatrix.thaw()']
 # what the body of a ``with x.transform() as mat:`` block does with the matrix it is handed (sub-check ``inplace``)
 BODY_STEPS = ['rmul', 'spin', 'read', 'spin', 'read']
+# in-place changes made to one rotation object between its uses as a rotation (sub-check ``inplace``, history part)
+MUT_STEPS = ['imatmul', 'imatmul_self', 'set_attr', 'set_item', 'imul', 'transform', 'use_only']
 
 
 def typemix_strategy(tier):
@@ -603,6 +605,7 @@ def typemix_strategy(tier):
         'left': st.sampled_from(LEFT_KINDS), 'right': st.sampled_from(ROT_KINDS), 'form': st.sampled_from(FORMS),
         'v': vector(), 'ab': triple_pair(),
         'helper': st.sampled_from(HELPERS), 'body': st.lists(st.sampled_from(BODY_STEPS), max_size=3), 'rl': ROUTE, 'rr': ROUTE,
+        'mut': st.lists(st.sampled_from(MUT_STEPS), min_size=1, max_size=3),
     }).map(_split_ab)
 
 
@@ -843,6 +846,86 @@ def transform_block(desc, ctx, lk):
                   f'Vec{tuple(v0)}.transform() with body {body}: the vector afterwards {got} differs from the reference {want} by {d:g}', left=lk)
 
 
+def use_as_rotation(ctx, obj, kind, v, R, rr, when):
+    """Every way of rotating by ``obj`` performs the rotation its *observable* state (pitch/yaw/roll, or entries) stands
+    for - whatever was done to the object before.  'Vec @ Angle equals Vec @ Matrix.from_angle(Angle)' + Source convention."""
+    import srctools.math as sm
+    is_ang = kind in ('Angle', 'FrozenAngle')
+    ref = r_rot(*read_ang(obj)) if is_ang else read_mat(obj)
+    state = observe(obj, kind)
+    want = r_vec(v, ref)
+    tol = TOL_ENTRY * max(vnorm(v), 1.0)
+    vec_inplace = sm.Vec(v[0], v[1], v[2])
+    vec_inplace @= obj
+    got_by = [
+        ('Vec @ x', read_vec(sm.Vec(v[0], v[1], v[2]) @ obj)),
+        ('FrozenVec @ x', read_vec(sm.FrozenVec(v[0], v[1], v[2]) @ obj)),
+        ('tuple @ x', read_vec((v[0], v[1], v[2]) @ obj)),
+        ('Vec @= x', read_vec(vec_inplace)),
+        ('Vec @ to_matrix(x)', read_vec(sm.Vec(v[0], v[1], v[2]) @ sm.to_matrix(obj))),
+    ]
+    for how, got in got_by:
+        d = max(abs(got[i] - want[i]) for i in range(3))
+        ctx.check(d <= tol, 'rotation_after_history',
+                  f'{how} with x the {kind} {state} {when} gave {got}; the rotation x stands for gives {want} (differ by {d:g}, tol {tol:g})',
+                  left=kind, how=how)
+    mats = [('Matrix() @ x', sm.Matrix() @ obj), ('to_matrix(x)', sm.to_matrix(obj))]
+    if is_ang:
+        mats += [('Matrix.from_angle(x)', sm.Matrix.from_angle(obj)), ('FrozenMatrix.from_angle(x)', sm.FrozenMatrix.from_angle(obj))]
+    for how, m in mats:
+        g = read_mat(m)
+        d = max_diff(g, ref)
+        ctx.check(d <= TOL_ENTRY, 'rotation_after_history',
+                  f'{how} with x the {kind} {state} {when} differs from the rotation x stands for by {d:g}\n want={ref}\n got ={g}',
+                  left=kind, how=how)
+    # x as the left operand: x @ R is the rotation of x followed by R
+    prod = obj @ R
+    wantp = r_mul(ref, rr)
+    if is_ang:
+        gp, tp = r_rot(*read_ang(prod)), rt_tol(horiz(wantp))
+    else:
+        gp, tp = read_mat(prod), TOL_ENTRY
+    d = max_diff(gp, wantp)
+    ctx.check(d <= tp, 'rotation_after_history',
+              f'x @ r with x the {kind} {state} {when} differs from the reference product by {d:g} (tol {tp:g})', left=kind, how='x @ r')
+    after = observe(obj, kind)
+    ctx.check(after == state, 'rotation_after_history', f'using the {kind} as a rotation changed it: {state} -> {after}', left=kind, how='unchanged')
+
+
+def rotation_history(desc, ctx, lk):
+    """use x as a rotation; change x in place; use it again; ... - one object throughout (frozen kinds: ``x @= r`` rebinds)."""
+    import srctools.math as sm
+    steps = desc.get('mut')
+    if steps is None or lk not in ROT_KINDS:
+        return
+    obj, _ = mk_rot(lk, desc['a'], desc.get('rl', 0))
+    R, rr = mk_rot(desc['right'], desc['b'], desc.get('rr', 0))
+    v = [float(c) for c in desc['v']]
+    b = desc['b']
+    use_as_rotation(ctx, obj, lk, v, R, rr, 'freshly built')
+    done = []
+    for n, step in enumerate(steps):
+        if lk != 'Angle' and step in ('set_attr', 'set_item', 'imul', 'transform'):
+            step = 'imatmul'        # only the mutable Angle has these; a matrix with entries overwritten is no rotation
+        ctx.label(f'history:{lk}:{step}')
+        if step == 'imatmul':
+            obj = operator.imatmul(obj, R)
+        elif step == 'imatmul_self':
+            obj = operator.imatmul(obj, obj)
+        elif step == 'set_attr':
+            setattr(obj, ('pitch', 'yaw', 'roll')[n % 3], b[n % 3])
+        elif step == 'set_item':
+            obj[(0, 'y', 'roll', 'pit', 1, 'r')[(n + len(steps)) % 6]] = b[(n + 1) % 3]
+        elif step == 'imul':
+            obj = operator.imul(obj, 0.5)
+        elif step == 'transform':
+            with obj.transform() as m:
+                m @= R
+        done.append(step)
+        ctx.check(type(obj) is kind_class(lk), 'result_type', f'{lk} after {done} is a {type(obj).__name__}', left=lk)
+        use_as_rotation(ctx, obj, lk, v, R, rr, f'after the in-place steps {done} (r = {desc["right"]}{b})')
+
+
 def exec_inplace(desc, ctx):
     lk, rk = desc['left'], desc['right']
     desc = dict(desc, form='imatmul')
@@ -882,6 +965,7 @@ def exec_inplace(desc, ctx):
                   f'x @= x with x the same {lk}{desc["a"]} differs from the rotation applied twice by {max_diff(gy, want):g}', left=lk)
         ctx.label('alias:x@=x')
     transform_block(desc, ctx, lk)
+    rotation_history(desc, ctx, lk)
 
 
 # ------------------------------------------------------------------ rotation sources for roundtrip / inverse
@@ -1026,7 +1110,8 @@ SUBCHECKS = [
     Sub('operands', exec_operands, strategy=typemix_strategy, quick=6000, thorough=160000, floor=300,
         must_hit=_PAIR_FORMS + tuple('helper:' + h for h in HELPERS)),
     Sub('inplace', exec_inplace, strategy=typemix_strategy, quick=6000, thorough=160000, floor=300,
-        must_hit=_PAIRS + ('transform:Vec', 'transform:Angle', 'transform_body:rmul', 'transform_body:spin', 'transform_body:read')),
+        must_hit=_PAIRS + ('transform:Vec', 'transform:Angle', 'transform_body:rmul', 'transform_body:spin', 'transform_body:read')
+        + tuple(f'history:Angle:{s}' for s in MUT_STEPS) + tuple(f'history:{k}:imatmul' for k in ROT_KINDS)),
     Sub('roundtrip', exec_roundtrip, strategy=source_strategy, enumerate=source_enumerate, quick=10000, thorough=320000, floor=500,
         must_hit=tuple('src:' + s for s in SOURCES) + ('gimbal_h<1e-15', 'gimbal_h<1e-9', 'gimbal_h<=1e-3', 'near_threshold_h<=1e-2')
         + tuple('basis:' + b for b in BASIS_AXES)),
